@@ -403,7 +403,7 @@ def extra_carriers(ctx, rec):
     """C15: the same abstract call under every data / auxiliary / time carrier; the first (f64, datetime64[ns])
     execution is the session's base call, every other carrier is a 'recall' of it."""
     g = gen_qc.Gen(ctx.seed + 29, size=ctx.pick(8, 14))
-    per_fn = ctx.pick(6, 40)
+    per_fn = ctx.pick(6, 150)
     uses_time = {"roc", "flat", "att", "speed", "clim"}
     uses_aux = {"dens", "loc", "speed", "clim"}
     for fn in ALL_FNS:
